@@ -251,12 +251,7 @@ Fixpoint vsub (a b : vec) : vec := match a, b with x :: a', y :: b' => (x - y) :
 Definition vclose (tol : Q) (a b : vec) : bool :=
   Nat.eqb (length a) (length b) && Qle_bool (vmaxabs (vsub a b)) (tol * (vmaxabs a + vmaxabs b)).
 Definition vlclose (tol : Q) := all2 (vclose tol).
-Definition tol7 : Q := 1 # 10000000.
-(* the model's own (exact, rational) draw m and the float the implementation returned: when they agree to 1e-7 relative the
-   run continues from the implementation's value (a checked certificate: keeps the rationals at binary64 size), otherwise
-   from the model's -- every later comparison then shows the disagreement *)
-Definition adopt (m obs : vec) : vec := if vclose tol7 m obs then obs else m.
-
+Definition tol7 : Q := 1 # 100000.   (* agreement required between the model's exact draw and the implementation's float (CGLS is iterative) *)
 Record sst := mkS { s_kind : kind; s_pt : vec; s_cache : Q; s_grad : vec; s_scale : Q; s_acc : list Z;
                     s_tunes : list (nat * nat * nat); s_init : vec }.
 
@@ -264,6 +259,15 @@ Definition set_pt (s : sst) (p : vec) (c : Q) (a : Z) : sst :=
   mkS (s_kind s) p c (s_grad s) (s_scale s) (s_acc s ++ [a]) (s_tunes s) (s_init s).
 Definition set_all (s : sst) (p : vec) (c : Q) (g : vec) (a : Z) : sst :=
   mkS (s_kind s) p c g (s_scale s) (s_acc s ++ [a]) (s_tunes s) (s_init s).
+
+(* the model's own (exact, rational) draw m and the float the implementation returned: the run continues from the
+   implementation's value (keeps the rationals at binary64 size); when the two do not agree to 1e-5 relative, the model's
+   value is kept in s_grad (otherwise empty for these kinds) and every later comparison of this sampler fails (draw_ok) *)
+Definition adopt (s : sst) (floor : Q) (m obs : vec) : sst :=     (* floor: the block's scale (a mean that is exactly 0 comes back as round-off) *)
+  if Nat.eqb (length m) (length obs) && Qle_bool (vmaxabs (vsub m obs)) (tol7 * (vmaxabs m + vmaxabs obs + floor))
+  then set_pt s obs (s_cache s) 1 else set_all s obs (s_cache s) (map Qred m ++ [1]) 1.
+Definition draw_ok (s : sst) : bool :=
+  match s_kind s with KConj | KLrto => match s_grad s with [] => true | _ => false end | _ => true end.
 
 (* sampler.step() followed by sampler._acc.append(acc) *)
 Definition ctrans (_ : nat) (t : vec -> Q) (s : sst) (r : rnd) : sst :=
@@ -274,10 +278,10 @@ Definition ctrans (_ : nat) (t : vec -> Q) (s : sst) (r : rnd) : sst :=
   | KConj =>                          (* t(p) = -rate * p + (terms cancelling in differences): rate = (t[p0] - t[2 p0]) / p0 *)
       let p0 := match s_pt s with x :: _ => x | [] => 1 end in
       let rate := (t [p0] - t [2 * p0]) / p0 in
-      set_pt s (adopt [r_logu r / rate] (r_vec r)) (s_cache s) 1          (* r_logu carries the scripted standard variate *)
+      adopt s 0 [r_logu r / rate] (r_vec r)                                   (* r_logu carries the scripted standard variate *)
   | KLrto =>                          (* zero noise: the minimiser of the stacked least-squares problem = conditional mean *)
       let n := length (s_pt s) in
-      set_pt s (adopt (qsolve n (combine (hessq t (s_scale s) n) (grad0q t (s_scale s) n))) (r_vec r)) (s_cache s) 1
+      adopt s (s_scale s) (qsolve n (combine (hessq t (s_scale s) n) (grad0q t (s_scale s) n))) (r_vec r)
   | KDirect =>                        (* test distribution: draw = z + (logd(1..1) - logd(0..0)) of the target it is *)
       let p0 := map (fun _ => 0) (s_pt s) in
       let p1 := map (fun _ => 1) (s_pt s) in
@@ -426,7 +430,7 @@ Fixpoint combo_abs (c : list Z) (v : list Q) : Q :=
    the cached log-density (relative to the target's value at the first probe point: the model's joint omits terms that are
    constant in the block) and cached gradient the sampler holds; the Gamma shape a Conjugate block hands to numpy *)
 Definition ev_ok_tol (tol : Q) (probes : list (list vec)) (combos : list (list (list Z))) (e : @ev vec Q sst) (o : oev) : bool :=
-  Nat.eqb (e_blk e) (o_blk o) && vlclose tol (e_cur e) (o_cur o) && vclose tol (s_pt (e_s e)) (o_pt o)
+  Nat.eqb (e_blk e) (o_blk o) && vlclose tol (e_cur e) (o_cur o) && vclose tol (s_pt (e_s e)) (o_pt o) && draw_ok (e_s e)
   && (let tv := map (e_tgt e) (nth (e_blk e) probes []) in
       forallb (fun c => Qle_bool (Qabs (combo c (o_probes o) - combo c tv))
                                  (tol * (1 + combo_abs c (o_probes o) + combo_abs c tv)))
@@ -449,7 +453,7 @@ Definition check_hybrid_tol (fresh : bool) (jt : list vec -> Q) (kinds : list ki
   all2 (ev_ok_tol tol probes combos) (r_log x) olog
   && vlclose tol (g_cur (r_st x)) ocur
   && all2 (vlclose tol) (r_stored x) ostored
-  && all2 (fun s p => vclose tol (s_pt s) p) (g_ss (r_st x)) opts.
+  && all2 (fun s p => vclose tol (s_pt s) p && draw_ok s) (g_ss (r_st x)) opts.
 
 (* ---- legacy ---- *)
 Inductive lkind := LRec | LMH (scale : Q).
@@ -492,6 +496,25 @@ Definition lobs_eqb (a b : lobs) : bool :=
   | LObsValueError, LObsValueError => true
   | _, _ => false
   end.
+
+(* legacy Gibbs with real legacy samplers (kernels opaque): values close, targets through probe combinations *)
+Definition lev_ok_tol (tol : Q) (probes : list (list vec)) (combos : list (list (list Z))) (e : @ev vec Q vec) (o : oev) : bool :=
+  Nat.eqb (e_blk e) (o_blk o) && vlclose tol (e_cur e) (o_cur o) && vclose tol (e_s e) (o_pt o)
+  && let tv := map (e_tgt e) (nth (e_blk e) probes []) in
+     forallb (fun c => Qle_bool (Qabs (combo c (o_probes o) - combo c tv))
+                                (tol * (1 + combo_abs c (o_probes o) + combo_abs c tv)))
+             (nth (e_blk e) combos []).
+Definition lobs_close (tol : Q) (a b : lobs) : bool :=
+  match a, b with
+  | LObs s w, LObs s' w' => all2 (vlclose tol) s s' && all2 (vlclose tol) w w'
+  | LObsIndexError, LObsIndexError => true
+  | LObsValueError, LObsValueError => true
+  | _, _ => false
+  end.
+Definition check_legacy_tol (jt : list vec -> Q) (init0 : list vec) (sc : list (list (list rnd)))
+    (ops : list lop) (probes : list (list vec)) (combos : list (list (list Z))) (tol : Q) (oobs : list lobs) (olog : list oev) : bool :=
+  let r := legacy_calls jt [] init0 sc ops 0 (mkL None None) in
+  all2 (lobs_close tol) (fst r) oobs && all2 (lev_ok_tol tol probes combos) (snd r) olog.
 
 Definition check_legacy (jt : list vec -> Q) (ks : list lkind) (init0 : list vec) (sc : list (list (list rnd)))
     (ops : list lop) (probes : list (list vec)) (oobs : list lobs) (olog : list oev) : bool :=
